@@ -1,0 +1,41 @@
+//! Re-exports of crate-private helpers for the external verification harness.
+//! Compiled only with `--cfg lymui_verif`; the library itself never uses this module.
+use super::transfer::{GammaCorrection, HdrCorrection};
+use crate::util::PivotFloat;
+
+pub fn apply_srgb_gamma_correction(v: f64) -> f64 {
+    v.apply_srgb_gamma_correction()
+}
+pub fn compute_srgb_gamma_expanded(v: f64) -> f64 {
+    v.compute_srgb_gamma_expanded()
+}
+pub fn compute_argb_gamma(v: f64) -> f64 {
+    v.compute_argb_gamma()
+}
+pub fn compute_argb_gamma_expanded(v: f64) -> f64 {
+    v.compute_argb_gamma_expanded()
+}
+pub fn compute_rec709_gamma_correction(v: f64) -> f64 {
+    v.compute_rec709_gamma_correction()
+}
+pub fn compute_rec709_gamma_expanded(v: f64) -> f64 {
+    v.compute_rec709_gamma_expanded()
+}
+pub fn compute_rec2020_gamma_correction(v: f64) -> f64 {
+    v.compute_rec2020_gamma_correction()
+}
+pub fn compute_rec2020_gamma_expanded(v: f64) -> f64 {
+    v.compute_rec2020_gamma_expanded()
+}
+pub fn pq_eotf(v: f64) -> f64 {
+    v.pq_eotf()
+}
+pub fn pq_inverse_eotf(v: f64) -> f64 {
+    v.pq_inverse_eotf()
+}
+pub fn get_degree_from_radian(v: f64) -> f64 {
+    v.get_degree_from_radian()
+}
+pub fn get_radian_from_degree(v: f64) -> f64 {
+    v.get_radian_from_degree()
+}
